@@ -142,6 +142,10 @@ func runC05(c *rt.C) {
 		return
 	}
 	fresh := db.Fresh()
+	var early *nitro.Writer
+	if c.Index%2 == 1 {
+		early = fresh.N.NewWriter() // a writer that exists before the restore and is used after it
+	}
 	res, stuck, inc := loadWithProbe(fresh, dir, cfg.LoadConc)
 	witness := map[string]interface{}{"cfg": cfg, "stored_sn": target.Sn, "items": len(target.Want), "max_versions": maxv, "physical_nodes": total, "churn_epochs": churned}
 	switch {
@@ -182,6 +186,9 @@ func runC05(c *rt.C) {
 		}
 		h2.valctr = 1 << 20
 		h2.Writers = append(h2.Writers, fresh.N.NewWriter(), fresh.N.NewWriter())
+		if early != nil {
+			h2.Writers[0] = early
+		}
 		func() {
 			defer func() {
 				if p := recover(); p != nil {
@@ -210,6 +217,22 @@ func runC05(c *rt.C) {
 		h2.CloseAll()
 	}
 	res.snap.Close()
+	if !c.Failed() {
+		// original and restored instance: with every handle closed, GC() at quiescence must reach the newest snapshot
+		for which, d := range map[string]*DB{"restored": fresh, "original": db} {
+			if which == "original" && keepRef {
+				continue // the harness still holds its extra reference of the stored snapshot
+			}
+			d.N.GC()
+			if !Quiesce(d.N) {
+				continue
+			}
+			if last, cur := d.N.GetLastGCSn(), d.N.GetCurrSn(); last != cur-1 {
+				open, retired := d.N.VerifSnapshotLists()
+				c.Violate("collector-stuck-after-backup", fmt.Sprintf("%s instance: every snapshot handle is closed and GC() ran at quiescence, but GetLastGCSn()=%d, newest snapshot %d (open list %d, retired list %d)", which, last, cur-1, open, retired), witness)
+			}
+		}
+	}
 	if keepRef {
 		target.S.Close()
 	}
